@@ -362,50 +362,8 @@ func (g *c03Gen) insertRef(doc map[string]interface{}, path string, name string,
 	return nil, false
 }
 
-// the reference kinds the property names (kept in step with named_rules in coq/theories/Res/C03Facts.v):
-// edges are also drawn from this list, so a row deleted from the table shows up as a reference that does not follow
-var c03NamedRules = [][3]string{
-	{"ConfigMap", "Pod", "spec/volumes/configMap/name"},
-	{"ConfigMap", "Pod", "spec/containers/env/valueFrom/configMapKeyRef/name"},
-	{"ConfigMap", "Pod", "spec/containers/envFrom/configMapRef/name"},
-	{"ConfigMap", "Deployment", "spec/template/spec/volumes/configMap/name"},
-	{"ConfigMap", "Deployment", "spec/template/spec/containers/env/valueFrom/configMapKeyRef/name"},
-	{"ConfigMap", "Deployment", "spec/template/spec/containers/envFrom/configMapRef/name"},
-	{"ConfigMap", "StatefulSet", "spec/template/spec/volumes/configMap/name"},
-	{"ConfigMap", "DaemonSet", "spec/template/spec/volumes/configMap/name"},
-	{"ConfigMap", "Job", "spec/template/spec/volumes/configMap/name"},
-	{"ConfigMap", "CronJob", "spec/jobTemplate/spec/template/spec/volumes/configMap/name"},
-	{"Secret", "Pod", "spec/volumes/secret/secretName"},
-	{"Secret", "Pod", "spec/containers/env/valueFrom/secretKeyRef/name"},
-	{"Secret", "Deployment", "spec/template/spec/volumes/secret/secretName"},
-	{"Secret", "Deployment", "spec/template/spec/containers/envFrom/secretRef/name"},
-	{"Secret", "Deployment", "spec/template/spec/imagePullSecrets/name"},
-	{"Secret", "StatefulSet", "spec/template/spec/volumes/secret/secretName"},
-	{"Secret", "Ingress", "spec/tls/secretName"},
-	{"Secret", "ServiceAccount", "imagePullSecrets/name"},
-	{"Service", "StatefulSet", "spec/serviceName"},
-	{"Service", "Ingress", "spec/rules/http/paths/backend/service/name"},
-	{"Service", "Ingress", "spec/defaultBackend/service/name"},
-	{"ServiceAccount", "Pod", "spec/serviceAccountName"},
-	{"ServiceAccount", "Deployment", "spec/template/spec/serviceAccountName"},
-	{"ServiceAccount", "StatefulSet", "spec/template/spec/serviceAccountName"},
-	{"ServiceAccount", "RoleBinding", "subjects"},
-	{"ServiceAccount", "ClusterRoleBinding", "subjects"},
-	{"PersistentVolumeClaim", "Pod", "spec/volumes/persistentVolumeClaim/claimName"},
-	{"PersistentVolumeClaim", "Deployment", "spec/template/spec/volumes/persistentVolumeClaim/claimName"},
-	{"PersistentVolumeClaim", "StatefulSet", "spec/template/spec/volumes/persistentVolumeClaim/claimName"},
-	{"Role", "RoleBinding", "roleRef/name"},
-	{"ClusterRole", "RoleBinding", "roleRef/name"},
-	{"ClusterRole", "ClusterRoleBinding", "roleRef/name"},
-	{"Deployment", "HorizontalPodAutoscaler", "spec/scaleTargetRef/name"},
-	{"StatefulSet", "HorizontalPodAutoscaler", "spec/scaleTargetRef/name"},
-	{"PersistentVolume", "PersistentVolumeClaim", "spec/volumeName"},
-	{"StorageClass", "PersistentVolumeClaim", "spec/storageClassName"},
-	{"PriorityClass", "Pod", "spec/priorityClassName"},
-	{"IngressClass", "Ingress", "spec/ingressClassName"},
-}
-
-// addEdge creates one reference (a.field -> b) chosen from the run-time rule table.
+// addEdge creates one reference (a.field -> b) whose row and field spec are drawn from the rule table
+// the generator was given: the committed REFERENCE table (plus whatever the run-time table has on top).
 func (g *c03Gen) addEdge(b *c03Res, external bool) bool {
 	// rows for the referent's kind (by kind only: a row whose group/version can never match is still a rule
 	// the table advertises for that kind)
@@ -420,26 +378,19 @@ func (g *c03Gen) addEdge(b *c03Res, external bool) bool {
 	}
 	row := rows[g.rng.Intn(len(rows))]
 	fs := row.Referrers[g.rng.Intn(len(row.Referrers))]
-	if g.rng.Chance(20) {
-		var named [][3]string
-		for _, n := range c03NamedRules {
-			if n[0] == b.Kind {
-				named = append(named, n)
-			}
-		}
-		if len(named) > 0 {
-			n := named[g.rng.Intn(len(named))]
-			fs = types.FieldSpec{Path: n[2]}
-			fs.Kind = n[1]
-		}
-	}
+	return g.addEdgeWith(b, row, fs, external, false)
+}
+
+// addEdgeWith creates the reference for one given (row, field spec). sameLayer forces a fresh referrer
+// in the referent's layer.
+func (g *c03Gen) addEdgeWith(b *c03Res, row krusty.VerifC03Rule, fs types.FieldSpec, external, sameLayer bool) bool {
 	if fs.Kind == "" {
 		return false
 	}
 	av := c03APIVersionFor(fs.Kind, fs.Group, fs.Version)
 	// referrer: reuse an existing one of that kind or make a new one
 	var a *c03Res
-	if g.rng.Chance(45) {
+	if !sameLayer && g.rng.Chance(45) {
 		var cands []*c03Res
 		for _, r := range g.b.Res {
 			if r.Kind == fs.Kind && r.APIVersion == av && !r.Generated && r != b {
@@ -462,7 +413,11 @@ func (g *c03Gen) addEdge(b *c03Res, external bool) bool {
 		}
 		// layer: same as the referent, an ancestor of it, or anywhere
 		layer := b.Layer
-		switch g.rng.Intn(4) {
+		pick := g.rng.Intn(4)
+		if sameLayer {
+			pick = 3
+		}
+		switch pick {
 		case 0:
 			for layer != 0 && g.rng.Bool() {
 				layer = g.b.Layers[layer].Parent
@@ -585,8 +540,240 @@ func c03GenBuild(rng *Rng, rules []krusty.VerifC03Rule) *c03Build {
 			i++
 		}
 	}
+	if (b.Shape == "siblings" || b.Shape == "tree3") && rng.Chance(40) {
+		c03AddTwins(g)
+	}
+	if len(b.Layers) > 1 && len(b.Edges) > 0 && rng.Chance(25) {
+		// a rival: another resource of the referent's kind and original name, in another kustomization
+		e := b.Edges[rng.Intn(len(b.Edges))]
+		if t := b.res(e.To); t != nil && !t.Generated {
+			layer := rng.Intn(len(b.Layers))
+			if layer != t.Layer && g.countIn(t.Kind, t.Name, t.Namespace, layer) == 0 {
+				c := &c03Res{ID: g.newID(), APIVersion: t.APIVersion, Kind: t.Kind, Name: t.Name, Namespace: t.Namespace, Layer: layer}
+				raw, _ := json.Marshal(t.Doc)
+				_ = json.Unmarshal(raw, &c.Doc)
+				if md, ok := c.Doc["metadata"].(map[string]interface{}); ok {
+					c03SetTracer(md, c.ID)
+				}
+				b.Res = append(b.Res, c)
+			}
+		}
+	}
 	c03Render(b, rng)
 	return b
+}
+
+// c03AddTwins: in a build with two sibling bases, copy a referent and a referrer of it from one base into
+// the other under the same names (each base is a self-contained copy of an application).  Original
+// names are then ambiguous and only the prefix/suffix context of the layers tells the two apart.
+func c03AddTwins(g *c03Gen) {
+	b := g.b
+	sib := map[int]int{}
+	for i := range b.Layers {
+		for j := range b.Layers {
+			if i != j && b.Layers[i].Parent == b.Layers[j].Parent && b.Layers[i].Parent >= 0 {
+				sib[i] = j
+			}
+		}
+	}
+	var cands []int
+	for k, e := range b.Edges {
+		a, t := b.res(e.From), b.res(e.To)
+		if a == nil || t == nil || t.Generated || a.Layer != t.Layer {
+			continue
+		}
+		if _, ok := sib[a.Layer]; ok {
+			cands = append(cands, k)
+		}
+	}
+	if len(cands) == 0 {
+		return
+	}
+	e := b.Edges[cands[g.rng.Intn(len(cands))]]
+	a, t := b.res(e.From), b.res(e.To)
+	other := sib[a.Layer]
+	if g.taken(a.Kind, a.Name, a.Namespace) && g.countIn(a.Kind, a.Name, a.Namespace, other) > 0 {
+		return
+	}
+	if g.countIn(t.Kind, t.Name, t.Namespace, other) > 0 {
+		return
+	}
+	clone := func(r *c03Res) *c03Res {
+		c := &c03Res{ID: g.newID(), APIVersion: r.APIVersion, Kind: r.Kind, Name: r.Name, Namespace: r.Namespace, Layer: other}
+		raw, _ := json.Marshal(r.Doc)
+		_ = json.Unmarshal(raw, &c.Doc)
+		if md, ok := c.Doc["metadata"].(map[string]interface{}); ok {
+			c03SetTracer(md, c.ID)
+		}
+		b.Res = append(b.Res, c)
+		return c
+	}
+	t2, a2 := clone(t), clone(a)
+	// every edge of the original referrer is repeated in the copy; the copied edge to t goes to t2
+	for _, x := range append([]c03Edge{}, b.Edges...) {
+		if x.From != a.ID {
+			continue
+		}
+		y := x
+		y.From = a2.ID
+		if x.To == t.ID {
+			y.To = t2.ID
+		}
+		y.Addr = append([]interface{}{}, x.Addr...)
+		b.Edges = append(b.Edges, y)
+	}
+}
+
+// c03SetTracer rewrites only the tracer entry of a copied metadata (other annotations may be reference fields)
+func c03SetTracer(md map[string]interface{}, id string) {
+	an, ok := md["annotations"].(map[string]interface{})
+	if !ok {
+		an = map[string]interface{}{}
+		md["annotations"] = an
+	}
+	an[c03Tracer] = id
+}
+
+func (g *c03Gen) countIn(kind, name, ns string, layer int) int {
+	n := 0
+	for _, r := range g.b.Res {
+		if r.Kind == kind && r.Name == name && r.Namespace == ns && r.Layer == layer {
+			n++
+		}
+	}
+	return n
+}
+
+// c03SweepBuild: one small build for one (row, field spec) of the rule table: the referent in a base,
+// the referrer beside it or in the overlay, at least one rename on the way.
+func c03SweepBuild(rng *Rng, rules []krusty.VerifC03Rule, row krusty.VerifC03Rule, fs types.FieldSpec) *c03Build {
+	b := &c03Build{Files: map[string]string{}, Top: "/top"}
+	g := &c03Gen{rng: rng, rules: rules, b: b, useNs: rng.Chance(30)}
+	if rng.Bool() {
+		b.Shape = "sweep-single"
+		b.Layers = []c03Layer{{Dir: "/top", Parent: -1}}
+	} else {
+		b.Shape = "sweep-overlay"
+		b.Layers = []c03Layer{{Dir: "/top", Parent: -1}, {Dir: "/base", Parent: 0}}
+	}
+	for i := range b.Layers {
+		l := &b.Layers[i]
+		if rng.Chance(50) {
+			l.Prefix = rng.Pick(c03Prefixes)
+		}
+		if rng.Chance(30) {
+			l.Suffix = rng.Pick(c03Suffixes)
+		}
+	}
+	if b.Layers[0].Prefix == "" && b.Layers[0].Suffix == "" {
+		b.Layers[0].Prefix = rng.Pick(c03Prefixes)
+	}
+	kind := row.Kind
+	av := c03APIVersionFor(kind, "", "")
+	if _, known := c03APIVersion[kind]; !known {
+		av = c03APIVersionFor(kind, row.Group, row.Version)
+	}
+	t := g.newRes(kind, av, g.pickNs(kind, av), len(b.Layers)-1)
+	if (kind == "ConfigMap" || kind == "Secret") && rng.Chance(20) {
+		t.Generated = true
+	}
+	for tries := 0; tries < 5; tries++ {
+		if g.addEdgeWith(t, row, fs, false, rng.Chance(70)) {
+			break
+		}
+	}
+	for i := range b.Layers {
+		has := false
+		for _, r := range b.Res {
+			if r.Layer == i {
+				has = true
+			}
+		}
+		for j := range b.Layers {
+			if b.Layers[j].Parent == i {
+				has = true
+			}
+		}
+		if !has {
+			g.newRes("ConfigMap", "v1", "", i)
+		}
+	}
+	c03Render(b, rng)
+	return b
+}
+
+// c03LoadRefRules reads the committed reference copy of the rule table ("the documented rule set",
+// corpus/fieldspecs.ref.json, key nameReference).
+func c03LoadRefRules() ([]krusty.VerifC03Rule, error) {
+	data, err := os.ReadFile(verifRoot() + "/corpus/fieldspecs.ref.json")
+	if err != nil {
+		return nil, err
+	}
+	var d struct {
+		NameReference []struct {
+			Group      string `json:"group"`
+			Version    string `json:"version"`
+			Kind       string `json:"kind"`
+			FieldSpecs []struct {
+				Group   string `json:"group"`
+				Version string `json:"version"`
+				Kind    string `json:"kind"`
+				Path    string `json:"path"`
+				Create  bool   `json:"create"`
+			} `json:"fieldSpecs"`
+		} `json:"nameReference"`
+	}
+	if err := json.Unmarshal(data, &d); err != nil {
+		return nil, err
+	}
+	if len(d.NameReference) == 0 {
+		return nil, fmt.Errorf("corpus/fieldspecs.ref.json: no nameReference rows")
+	}
+	var out []krusty.VerifC03Rule
+	for _, r := range d.NameReference {
+		row := krusty.VerifC03Rule{Group: r.Group, Version: r.Version, Kind: r.Kind}
+		for _, f := range r.FieldSpecs {
+			fs := types.FieldSpec{Path: f.Path, CreateIfNotPresent: f.Create}
+			fs.Group, fs.Version, fs.Kind = f.Group, f.Version, f.Kind
+			row.Referrers = append(row.Referrers, fs)
+		}
+		out = append(out, row)
+	}
+	return out, nil
+}
+
+// c03UnionRules: the reference rows, plus every referrer the run-time table has and the reference has not
+// (rules added to the source are exercised automatically).
+func c03UnionRules(ref, runtime []krusty.VerifC03Rule) []krusty.VerifC03Rule {
+	out := make([]krusty.VerifC03Rule, len(ref))
+	for i, r := range ref {
+		out[i] = krusty.VerifC03Rule{Group: r.Group, Version: r.Version, Kind: r.Kind,
+			Referrers: append([]types.FieldSpec{}, r.Referrers...)}
+	}
+	for _, rr := range runtime {
+		idx := -1
+		for i := range out {
+			if out[i].Group == rr.Group && out[i].Version == rr.Version && out[i].Kind == rr.Kind {
+				idx = i
+			}
+		}
+		if idx < 0 {
+			out = append(out, krusty.VerifC03Rule{Group: rr.Group, Version: rr.Version, Kind: rr.Kind})
+			idx = len(out) - 1
+		}
+		for _, f := range rr.Referrers {
+			have := false
+			for _, g := range out[idx].Referrers {
+				if g.Group == f.Group && g.Version == f.Version && g.Kind == f.Kind && g.Path == f.Path {
+					have = true
+				}
+			}
+			if !have {
+				out[idx].Referrers = append(out[idx].Referrers, f)
+			}
+		}
+	}
+	return out
 }
 
 func c03Yaml(doc map[string]interface{}) string {
@@ -995,7 +1182,8 @@ func c03EffNs(apiVersion, kind, ns string) string {
 
 // inDomain: the hypotheses under which the property promises that the edge follows.
 //   (D1) the referent is the only resource of the build whose ORIGINAL name is the referenced name and whose
-//        kind the rule row is about (unambiguous original names);
+//        kind the rule row is about (unambiguous original names), or (D1') the rivals live in an
+//        incompatible prefix/suffix context while referrer and referent share one kustomization;
 //   (D2) in the output, referrer and referent are in the same namespace, or one of them is cluster scoped,
 //        or a RoleBinding subject names a ServiceAccount together with the namespace it ends up in;
 //   (D3) no OTHER rule row that reaches the same field finds a candidate for the referenced name
@@ -1008,10 +1196,8 @@ func c03InDomain(b *c03Build, e c03Edge, out map[string]*resource.Resource, rule
 	if a == nil || t == nil || oa == nil || ot == nil {
 		return false, "missing"
 	}
-	for _, r := range b.Res {
-		if r != t && r.Name == e.Old && r.Kind == t.Kind {
-			return false, "ambiguous-original-name"
-		}
+	if rivals, resolves := c03ContextResolves(b, e); rivals && !resolves {
+		return false, "ambiguous-original-name"
 	}
 	ida, idt := oa.CurId(), ot.CurId()
 	// a RoleBinding may name a ServiceAccount of another namespace, by that namespace
@@ -1045,6 +1231,146 @@ func c03InDomain(b *c03Build, e c03Edge, out map[string]*resource.Resource, rule
 		}
 	}
 	return true, ""
+}
+
+// the prefixes / suffixes the layers put on a resource, innermost first (what the build annotations record)
+func c03Affixes(b *c03Build, r *c03Res) (pfx, sfx []string) {
+	if c03SkipsAffixes(r) {
+		return nil, nil
+	}
+	for l := r.Layer; l >= 0; l = b.Layers[l].Parent {
+		if b.Layers[l].Prefix != "" {
+			pfx = append(pfx, b.Layers[l].Prefix)
+		}
+		if b.Layers[l].Suffix != "" {
+			sfx = append(sfx, b.Layers[l].Suffix)
+		}
+	}
+	return
+}
+
+// c03ContextResolves: (D1') the same original name more than once is still inside the domain when the
+// prefix/suffix context of the layers singles the referent out, by the specification of the two context
+// sieves (C03_unique_in_context / C03_unique_in_strict_context): the referent passes the coarse pass, and
+// either no rival does, or the referent passes the strict pass and no rival passing the coarse pass does.
+// A referent no transformer ever touched has no previous id and is no candidate at all: not resolved.
+func c03ContextResolves(b *c03Build, e c03Edge) (rivals, resolves bool) {
+	a, t := b.res(e.From), b.res(e.To)
+	if a == nil || t == nil {
+		return false, false
+	}
+	pa, sa := c03Affixes(b, a)
+	coarse := func(x *c03Res) bool {
+		px, sx := c03Affixes(b, x)
+		return (len(px) == 0 || len(pa) == 0 || c03SameEnding(px, pa)) && (len(sx) == 0 || len(sa) == 0 || c03SameEnding(sx, sa))
+	}
+	strict := func(x *c03Res) bool {
+		px, sx := c03Affixes(b, x)
+		return c03SameEnding(px, pa) && c03SameEnding(sx, sa)
+	}
+	rivalCoarse, rivalStrict := false, false
+	for _, r := range b.Res {
+		if r != t && r.Name == e.Old && r.Kind == t.Kind {
+			rivals = true
+			if coarse(r) {
+				rivalCoarse = true
+				if strict(r) {
+					rivalStrict = true
+				}
+			}
+		}
+	}
+	if !rivals {
+		return false, true
+	}
+	return true, c03HasHistory(b, t) && coarse(t) && (!rivalCoarse || (strict(t) && !rivalStrict))
+}
+
+// the namespace a resource ends up in, from the layering alone
+func c03FinalEffNs(b *c03Build, r *c03Res) string {
+	ns := r.Namespace
+	for l := r.Layer; l >= 0; l = b.Layers[l].Parent {
+		if b.Layers[l].Namespace != "" {
+			ns = b.Layers[l].Namespace
+		}
+	}
+	return c03EffNs(r.APIVersion, r.Kind, ns)
+}
+
+// c03ErrorUnexplained: a build that fails with "multiple possible referrals" although, edge by edge, the
+// specification of the sieves singles out one referent: no intermediate-name collision anywhere, every edge
+// with rivals is resolved by the layering context, its referent is visible to the referrer, and it is a
+// plain scalar reference.
+func c03ErrorUnexplained(b *c03Build) bool {
+	for _, r1 := range b.Res {
+		for _, r2 := range b.Res {
+			if r1 != r2 && r1.Kind == r2.Kind && r1.Name != r2.Name && c03NameInHistory(b, r2, r1.Name) {
+				return false
+			}
+		}
+	}
+	for _, e := range b.Edges {
+		if e.To == "" {
+			continue
+		}
+		a, t := b.res(e.From), b.res(e.To)
+		if a == nil || t == nil {
+			return false
+		}
+		rivals, resolves := c03ContextResolves(b, e)
+		if !rivals {
+			continue
+		}
+		if !resolves || e.Mapping {
+			return false
+		}
+		na, nt := c03FinalEffNs(b, a), c03FinalEffNs(b, t)
+		if na != nt && na != resid.TotallyNotANamespace && nt != resid.TotallyNotANamespace {
+			return false
+		}
+	}
+	return true
+}
+
+// c03HasHistory: some transformer recorded a previous id for the resource (prefix, suffix, namespace, hash)
+func c03HasHistory(b *c03Build, r *c03Res) bool {
+	if r.Generated && !r.NoHash {
+		return true
+	}
+	p, s := c03Affixes(b, r)
+	if len(p) > 0 || len(s) > 0 {
+		return true
+	}
+	for l := r.Layer; l >= 0; l = b.Layers[l].Parent {
+		if b.Layers[l].Namespace != "" {
+			return true
+		}
+	}
+	return false
+}
+
+// kinds the prefix / suffix transformers never rename
+func c03SkipsAffixes(r *c03Res) bool {
+	return r.Kind == "CustomResourceDefinition" || r.Kind == "Namespace" ||
+		(r.Kind == "APIService" && c03Group(r.APIVersion) == "apiregistration.k8s.io")
+}
+
+// the specification of utils.SameEndingSubSlice: one list is a suffix of the other, and an empty list only
+// matches an empty list
+func c03SameEnding(x, y []string) bool {
+	if len(x) > len(y) {
+		x, y = y, x
+	}
+	if len(x) == 0 {
+		return len(y) == 0
+	}
+	d := len(y) - len(x)
+	for i := range x {
+		if y[i+d] != x[i] {
+			return false
+		}
+	}
+	return true
 }
 
 func c03Min(a, b int) int {
@@ -1120,7 +1446,13 @@ func c03Oracles(r *Run, b *c03Build, o c03Outcome, rules []krusty.VerifC03Rule) 
 			r.Count("multiple_referrals", amb)
 			switch amb {
 			case "original":
-				// outside the domain of the property (ambiguous original names)
+				// ambiguous original names: outside the domain of the property, unless the layering context
+				// resolves every reference by the specification of the sieves
+				if c03ErrorUnexplained(b) {
+					report("refs_follow", "C03/unexpected-multiple-referrals",
+						"build fails although the prefix/suffix context of the layers singles out one referent for every reference: "+
+							o.realMsg[:c03Min(len(o.realMsg), 300)])
+				}
 			case "intermediate":
 				report("refs_follow", "C03/intermediate-name-collision",
 					"build fails with 'multiple possible referrals' although original names are unambiguous: "+
@@ -1149,6 +1481,11 @@ func c03Oracles(r *Run, b *c03Build, o c03Outcome, rules []krusty.VerifC03Rule) 
 				report("staged_equals_real", "C03/staged_equals_real",
 					fmt.Sprintf("resource %s differs:\nstaged:\n%s\nreal:\n%s", id, y1, y2))
 			}
+		}
+	}
+	if o.stages != nil && o.stages.Pre != nil && o.stages.Post != nil {
+		for _, d := range c03ChainOracle(o.stages.Pre, o.stages.Post) {
+			report("no_retarget_chain", "C03/no_retarget_chain", d)
 		}
 	}
 	outNames := map[string]string{} // output name -> tracer id (first)
@@ -1187,6 +1524,12 @@ func c03Oracles(r *Run, b *c03Build, o c03Outcome, rules []krusty.VerifC03Rule) 
 		}
 		t := b.res(e.To)
 		if got == want {
+			for _, x := range b.Res {
+				if x != t && x.Name == e.Old && x.Kind == t.Kind {
+					r.Count("edge_context", "rival-resolved-by-context")
+					break
+				}
+			}
 			if want != e.Old {
 				r.Count("edge", "followed-rename")
 			} else {
@@ -1381,6 +1724,15 @@ type c03SynRes struct {
 
 type c03Syn struct {
 	Res []c03SynRes `json:"resources"`
+	// scalar reference fields of the last resource whose expected value the selection laws determine
+	Refs []c03SynRef `json:"refs,omitempty"`
+}
+
+// one scalar reference of a namespaced referrer to objects of one kind (reached by exactly one rule row)
+type c03SynRef struct {
+	Addr   []interface{} `json:"addr"`
+	Value  string        `json:"value"`
+	Target string        `json:"target"` // kind of the rule row
 }
 
 var c03SynOld = []string{"x", "y", "z"}
@@ -1465,10 +1817,19 @@ func c03GenSynDirected(rng *Rng) c03Syn {
 				"\nrules:\n- resources: [configmaps, secrets]\n  resourceNames: [x, y, same, ext]\n"
 			hist(&r, []string{"cr"}, "ClusterRole", []string{"_non_namespaceable_"})
 		} else {
+			third := pick([]string{"y", "same", "x"})
 			r.Doc = "apiVersion: apps/v1\nkind: Deployment\nmetadata:\n  name: " + uniq("dep") + "\n" + nsLine(home) +
 				"spec:\n  template:\n    spec:\n      containers:\n      - name: c\n        envFrom:\n        - configMapRef:\n            name: x\n" +
-				"        - secretRef:\n            name: x\n        - configMapRef:\n            name: " + pick([]string{"y", "same", "x"}) +
+				"        - secretRef:\n            name: x\n        - configMapRef:\n            name: " + third +
 				"\n      volumes:\n      - configMap:\n          name: x\n"
+			env := []interface{}{"spec", "template", "spec", "containers", 0, "envFrom"}
+			at := func(i int, k string) []interface{} { return append(append([]interface{}{}, env...), i, k, "name") }
+			s.Refs = []c03SynRef{
+				{Addr: at(0, "configMapRef"), Value: "x", Target: "ConfigMap"},
+				{Addr: at(1, "secretRef"), Value: "x", Target: "Secret"},
+				{Addr: at(2, "configMapRef"), Value: third, Target: "ConfigMap"},
+				{Addr: []interface{}{"spec", "template", "spec", "volumes", 0, "configMap", "name"}, Value: "x", Target: "ConfigMap"},
+			}
 			hist(&r, []string{"dep"}, "Deployment", []string{effNs(home)})
 		}
 		ctx(&r)
@@ -1720,6 +2081,22 @@ func c03RunSyn(r *Run, s c03Syn, rules []krusty.VerifC03Rule) {
 	} else {
 		r.Count("syn_error", c03ErrKind(msg))
 	}
+	for _, d := range c03SynSelectionOracle(s, before, m, cls) {
+		r.Violation(OracleViolation{Law: "unique_in_context", Class: "C03/context_selection", Detail: d,
+			Replay: map[string]interface{}{"kind": "syn", "syn": s}})
+	}
+	if len(s.Refs) > 0 {
+		r.Count("syn", "selection-law-evaluated")
+	}
+	if cls == ClsOk {
+		for _, d := range c03ChainOracle(before, m) {
+			r.Violation(OracleViolation{Law: "no_retarget_chain", Class: "C03/no_retarget_chain", Detail: d,
+				Replay: map[string]interface{}{"kind": "syn", "syn": s}})
+		}
+	} else if cls == ClsPanic {
+		r.Violation(OracleViolation{Law: "no_panic", Class: "C03/panic", Detail: "name reference transformer panicked: " + msg,
+			Replay: map[string]interface{}{"kind": "syn", "syn": s}})
+	}
 	r.AddCase(term, map[string]interface{}{"kind": "syn", "syn": s}, changed)
 	r.Count("case", "syn:"+cls)
 	if cls == ClsOk {
@@ -1731,6 +2108,226 @@ func c03RunSyn(r *Run, s c03Syn, rules []krusty.VerifC03Rule) {
 	}
 }
 
+// ---------------------------------------------------------------- whole-transformer oracle
+
+// c03ChainOracle evaluates the law of theorem C03_no_retarget_chain on the implementation: between the
+// resource map just before and just after FixBackReferences, every document keeps its shape, and every
+// scalar (not under a key "namespace") keeps its text or follows a chain of renames, each link going from
+// a text to the CURRENT name of a resource that once had exactly that text as its name.  Texts nobody ever
+// had as a name (references to objects outside the build) therefore stay as they are.
+func c03ChainOracle(before, after resmap.ResMap) []string {
+	var out []string
+	if before == nil || after == nil {
+		return out
+	}
+	bs, as := before.Resources(), after.Resources()
+	if len(bs) != len(as) {
+		return []string{fmt.Sprintf("%d resources before, %d after", len(bs), len(as))}
+	}
+	// renamed: text -> current names of the resources that once had it
+	step := map[string][]string{}
+	for _, r := range bs {
+		a := r.GetAnnotations()
+		pn, ok := a[c03BuildAnnoPrefix+"previousNames"]
+		if !ok {
+			continue
+		}
+		for _, n := range strings.Split(pn, ",") {
+			step[n] = append(step[n], r.GetName())
+		}
+	}
+	reach := func(from, to string) bool {
+		seen := map[string]bool{from: true}
+		todo := []string{from}
+		for len(todo) > 0 {
+			x := todo[0]
+			todo = todo[1:]
+			if x == to {
+				return true
+			}
+			for _, y := range step[x] {
+				if !seen[y] {
+					seen[y] = true
+					todo = append(todo, y)
+				}
+			}
+		}
+		return false
+	}
+	var walk func(id string, path string, x, y *kyaml.Node)
+	walk = func(id, path string, x, y *kyaml.Node) {
+		if x == nil || y == nil {
+			return
+		}
+		if x.Kind != y.Kind {
+			out = append(out, fmt.Sprintf("%s %s: node kind changed", id, path))
+			return
+		}
+		switch x.Kind {
+		case kyaml.ScalarNode:
+			if x.Value != y.Value && !reach(x.Value, y.Value) {
+				out = append(out, fmt.Sprintf("%s %s: %q became %q, which is not the current name of anything once called %q (nor of a chain of such renames)",
+					id, path, x.Value, y.Value, x.Value))
+			}
+		case kyaml.MappingNode:
+			for i := 0; i+1 < len(x.Content); i += 2 {
+				k := x.Content[i].Value
+				if k == "namespace" || (path == "/metadata" && k == "annotations") {
+					continue
+				}
+				var v *kyaml.Node
+				for j := 0; j+1 < len(y.Content); j += 2 {
+					if y.Content[j].Value == k {
+						v = y.Content[j+1]
+						break
+					}
+				}
+				if v == nil {
+					out = append(out, fmt.Sprintf("%s %s: field %q disappeared", id, path, k))
+					continue
+				}
+				walk(id, path+"/"+k, x.Content[i+1], v)
+			}
+		case kyaml.SequenceNode:
+			if len(x.Content) != len(y.Content) {
+				out = append(out, fmt.Sprintf("%s %s: sequence length changed", id, path))
+				return
+			}
+			for i := range x.Content {
+				walk(id, fmt.Sprintf("%s/%d", path, i), x.Content[i], y.Content[i])
+			}
+		}
+	}
+	for i := range bs {
+		// the annotations mapping also holds the build annotations (refBy is appended there): compare the rest
+		walk(bs[i].CurId().String(), "", c03StrippedNode(bs[i]).YNode(), c03StrippedNode(as[i]).YNode())
+		if bs[i].CurId().String() != as[i].CurId().String() {
+			out = append(out, fmt.Sprintf("%s: identity changed to %s", bs[i].CurId(), as[i].CurId()))
+		}
+	}
+	return out
+}
+
+// c03SynSelectionOracle evaluates the selection laws (C03_unique_candidate, C03_unique_in_context,
+// C03_unique_in_strict_context, C03_external_no_candidate) on the implementation for the recorded scalar
+// references of a synthetic resource map: the referrer is the last resource, namespaced, and each recorded
+// field is reached by exactly one rule row.  The expected candidate is computed from the SPECIFICATION of
+// the sieves: previous name + kind, same effective namespace, then the prefix/suffix context (coarse pass;
+// strict pass when several remain).  Returns the violations and whether an error was to be expected.
+func c03SynSelectionOracle(s c03Syn, before, after resmap.ResMap, cls string) []string {
+	var out []string
+	if len(s.Refs) == 0 || before == nil {
+		return out
+	}
+	bs := before.Resources()
+	ref := bs[len(bs)-1]
+	csv := func(r *resource.Resource, key string) []string {
+		v, ok := r.GetAnnotations()[c03BuildAnnoPrefix+key]
+		if !ok {
+			return nil
+		}
+		return strings.Split(v, ",")
+	}
+	pa, sa := csv(ref, "prefixes"), csv(ref, "suffixes")
+	refNs := c03EffNs(ref.GetApiVersion(), ref.GetKind(), ref.GetNamespace())
+	errorExpected := false
+	type want struct {
+		ref  c03SynRef
+		name string // "" = unchanged
+	}
+	var wants []want
+	for _, f := range s.Refs {
+		var l4 []*resource.Resource
+		for _, c := range bs[:len(bs)-1] {
+			names, kinds := csv(c, "previousNames"), csv(c, "previousKinds")
+			hit, kindOk := false, false
+			for i, n := range names {
+				if n == f.Value {
+					hit = true
+				}
+				if i < len(kinds) && kinds[i] == f.Target {
+					kindOk = true
+				}
+			}
+			if !hit || !kindOk || c.GetApiVersion() != "v1" {
+				continue
+			}
+			if c03EffNs(c.GetApiVersion(), c.GetKind(), c.GetNamespace()) != refNs {
+				continue
+			}
+			l4 = append(l4, c)
+		}
+		coarse := func(c *resource.Resource) bool {
+			pc, sc := csv(c, "prefixes"), csv(c, "suffixes")
+			return (len(pc) == 0 || len(pa) == 0 || c03SameEnding(pc, pa)) && (len(sc) == 0 || len(sa) == 0 || c03SameEnding(sc, sa))
+		}
+		strict := func(c *resource.Resource) bool {
+			return c03SameEnding(csv(c, "prefixes"), pa) && c03SameEnding(csv(c, "suffixes"), sa)
+		}
+		sel := l4
+		if len(sel) != 1 {
+			var l5 []*resource.Resource
+			for _, c := range l4 {
+				if coarse(c) {
+					l5 = append(l5, c)
+				}
+			}
+			sel = l5
+			if len(l5) > 1 {
+				sel = nil
+				for _, c := range l5 {
+					if strict(c) {
+						sel = append(sel, c)
+					}
+				}
+			}
+		}
+		switch len(sel) {
+		case 0:
+			wants = append(wants, want{f, ""})
+		case 1:
+			wants = append(wants, want{f, sel[0].GetName()})
+		default:
+			same := true
+			for _, c := range sel {
+				if c.GetName() != sel[0].GetName() {
+					same = false
+				}
+			}
+			if same {
+				wants = append(wants, want{f, sel[0].GetName()})
+			} else {
+				errorExpected = true
+			}
+		}
+	}
+	if cls == ClsErr {
+		if !errorExpected {
+			out = append(out, "the transformer fails although the specification of the sieves selects at most one referent for every recorded reference")
+		}
+		return out
+	}
+	if cls != ClsOk || errorExpected || after == nil {
+		if cls == ClsOk && errorExpected {
+			out = append(out, "the transformer succeeds although one recorded reference has several distinct candidates left after all sieves")
+		}
+		return out
+	}
+	as := after.Resources()
+	got := as[len(as)-1]
+	for _, w := range wants {
+		v, ok := c03ReadAddr(got, w.ref.Addr)
+		exp := w.name
+		if exp == "" {
+			exp = w.ref.Value
+		}
+		if !ok || v != exp {
+			out = append(out, fmt.Sprintf("reference %v to the %s once called %q: holds %q, the sieves' specification selects %q", w.ref.Addr, w.ref.Target, w.ref.Value, v, exp))
+		}
+	}
+	return out
+}
+
 // ---------------------------------------------------------------- driver
 
 func runC03(r *Run, rng *Rng, tier string) error {
@@ -1738,8 +2335,8 @@ func runC03(r *Run, rng *Rng, tier string) error {
 	if tier == "thorough" {
 		nBuild, nSyn, nLaw = 1500, 4000, 6000
 	}
-	r.Meta.Rule = "builds: resource graphs (2-5 referents of the kinds of the RUN-TIME rule table, 1-5 reference edges whose field is drawn " +
-		"from that table, ~12% references to names outside the build, adversarial names: shared across kinds / looking like affixed names) " +
+	r.Meta.Rule = "builds: resource graphs (2-5 referents of the kinds of the committed REFERENCE rule table + run-time extras, 1-5 reference edges whose field is drawn " +
+		"from that table, one sweep build per (row, referrer field spec) every run, twin applications in sibling bases, ~12% references to names outside the build, adversarial names: shared across kinds / looking like affixed names) " +
 		"x layerings (single, overlay, two sibling bases, chain of 3, tree of 3 levels) x namePrefix/nameSuffix/namespace per layer x " +
 		"configMap/secret generators with and without hash; synthetic resource maps: 3-9 resources with hand-made rename histories over " +
 		"the names x/y/z, namespaces, prefix/suffix lists. non-trivial = some document changed (ref/syn) or some layer renames (book); distinct by hash of the case term"
@@ -1751,31 +2348,60 @@ func runC03(r *Run, rng *Rng, tier string) error {
 	if err != nil {
 		return err
 	}
+	// reference fields are drawn from the committed REFERENCE table (the documented rule set), so that a
+	// row changed or deleted in the source shows up as a reference that no longer follows its referent;
+	// rows the source has on top of the reference are exercised too
+	ref, err := c03LoadRefRules()
+	if err != nil {
+		return err
+	}
+	gen := c03UnionRules(ref, rules)
 	r.AddCase(c03RulesTerm(rules), map[string]interface{}{"kind": "table"}, true)
 	for _, b := range loadCorpus03() {
 		o := c03Run(b)
 		c03Cases(r, b, o)
-		c03Oracles(r, b, o, rules)
+		c03Oracles(r, b, o, gen)
 	}
 	for i := 0; i < nBuild; i++ {
-		b := c03GenBuild(rng.Fork(), rules)
+		b := c03GenBuild(rng.Fork(), gen)
 		o := c03Run(b)
 		r.Count("shape", b.Shape)
 		r.Count("build", o.realCls)
 		c03Cases(r, b, o)
-		c03Oracles(r, b, o, rules)
+		c03Oracles(r, b, o, gen)
 	}
 	for i := 0; i < nSyn; i++ {
 		c03RunSyn(r, c03GenSyn(rng.Fork()), rules)
 	}
+	// sweep: every (row, referrer field spec) of the table gets its own small build, every run
+	sweeps := 1
+	if tier == "thorough" {
+		sweeps = 6
+	}
+	for k := 0; k < sweeps; k++ {
+		for _, row := range gen {
+			for _, fs := range row.Referrers {
+				b := c03SweepBuild(rng.Fork(), gen, row, fs)
+				if len(b.Edges) == 0 {
+					r.Count("sweep", "no-edge:"+row.Kind+"<-"+fs.Kind+":"+fs.Path)
+					continue
+				}
+				o := c03Run(b)
+				r.Count("sweep", o.realCls)
+				fp, _ := json.Marshal(b.Files)
+				r.AddEval(string(fp), o.realCls == ClsOk)
+				c03Oracles(r, b, o, gen)
+			}
+		}
+	}
 	for i := 0; i < nLaw; i++ {
-		b := c03GenBuild(rng.Fork(), rules)
+		b := c03GenBuild(rng.Fork(), gen)
 		o := c03Run(b)
 		r.Count("shape", b.Shape)
 		r.Count("build", o.realCls)
 		fp, _ := json.Marshal(b.Files)
 		r.AddEval(string(fp), o.realCls == ClsOk && len(b.Edges) > 0)
-		c03Oracles(r, b, o, rules)
+		c03Oracles(r, b, o, gen)
 	}
 	return nil
 }
@@ -1830,14 +2456,28 @@ func replayC03(path string) (bool, string, error) {
 	}
 	if json.Unmarshal(raw, &wrap) == nil && (wrap.Build != nil || wrap.Syn != nil) {
 		if wrap.Syn != nil {
+			// a synthetic resource map: run the transformer and evaluate the whole-transformer law on it
 			rules, _ := krusty.VerifC03MergedDefaultRules()
 			m, err := c03BuildSyn(*wrap.Syn)
 			if err != nil {
 				return false, "", err
 			}
+			before := m.DeepCopy()
 			cls, msg := protect(func() error { return krusty.VerifC03FixBackReferences(m, rules) })
 			y, _ := m.AsYaml()
-			return cls == ClsPanic, fmt.Sprintf("class=%s msg=%q\n%s", cls, msg, y), nil
+			detail := fmt.Sprintf("class=%s msg=%q\n%s", cls, msg, y)
+			if cls == ClsPanic {
+				return true, detail + "\nLAW no_panic [C03/panic]", nil
+			}
+			if v := c03SynSelectionOracle(*wrap.Syn, before, m, cls); len(v) > 0 {
+				return true, detail + "\nLAW unique_in_context [C03/context_selection]: " + strings.Join(v, "; "), nil
+			}
+			if cls == ClsOk {
+				if v := c03ChainOracle(before, m); len(v) > 0 {
+					return true, detail + "\nLAW no_retarget_chain [C03/no_retarget_chain]: " + strings.Join(v, "; "), nil
+				}
+			}
+			return false, detail, nil
 		}
 		raw = wrap.Build
 	}
@@ -1845,17 +2485,27 @@ func replayC03(path string) (bool, string, error) {
 	if err := json.Unmarshal(raw, &b); err != nil {
 		return false, "", err
 	}
+	c03RestoreDocs(&b)
 	rules, err := krusty.VerifC03MergedDefaultRules()
 	if err != nil {
 		return false, "", err
 	}
+	gen := rules
+	if ref, err := c03LoadRefRules(); err == nil {
+		gen = c03UnionRules(ref, rules)
+	}
+	// the build is run again and every oracle is evaluated on it: refs_follow / external_untouched /
+	// no_retarget on the generated edges, staged_equals_real and the whole-transformer chain law
 	r := NewRun("C03", "replay", 0, "", "")
 	o := c03Run(&b)
-	c03Oracles(r, &b, o, rules)
+	c03Oracles(r, &b, o, gen)
 	detail := fmt.Sprintf("build class=%s msg=%q", o.realCls, o.realMsg)
 	if o.real != nil {
 		y, _ := o.real.AsYaml()
 		detail += "\n" + string(y)
+	}
+	for k, v := range r.Meta.Distribution["edge"] {
+		detail += fmt.Sprintf("\nedges %s: %d", k, v)
 	}
 	if len(r.Meta.Violations) > 0 {
 		v := r.Meta.Violations[0]
